@@ -1,11 +1,13 @@
 /-
 Mirror of `deduplicate_select_items` (sql/gen_projection.rs): the last step of the projection of every
 SELECT block. A select item is a compound identifier (`table.column`, `column`), an aliased expression,
-or something else (star, NULL, unnamed expression). The code walks the items once with a set `seen`:
- * a compound identifier is kept iff ANY of its parts was not seen yet – parts are inserted left to
-   right and the scan stops at the first new one (`Iterator::any` short-circuits);
- * an aliased item is kept iff its alias was not seen yet;
+or something else (star, NULL, unnamed expression). The code walks the items once with a set `seen` of
+WHOLE identifiers (since the repair `fix: deduplicate_select_items compares whole identifiers`):
+ * a compound identifier is kept iff exactly that identifier was not selected before;
+ * an aliased item is kept iff its alias (as a one-part identifier) was not seen before;
  * everything else is kept.
+(Before the repair the parts of an identifier were inserted one by one and an item survived iff ANY part
+was new - which merged `t1.k` into `t0.k`; see known_findings.json `same-name-column-dropped`, fixed.)
 -/
 namespace Model.Projection
 
@@ -17,33 +19,32 @@ inductive Item
   | other
   deriving DecidableEq, Repr
 
-/-- `idents.iter().any(|ident| seen.insert(ident))` : (was one new?, the set afterwards) -/
-def anyInsert (seen : List Ident) : List Ident → Bool × List Ident
-  | [] => (false, seen)
-  | i :: rest => if seen.contains i then anyInsert seen rest else (true, i :: seen)
-
-def dedupFrom (seen : List Ident) : List Item → List Item
+def dedupFrom (seen : List (List Ident)) : List Item → List Item
   | [] => []
   | .compound ps :: rest =>
-    let r := anyInsert seen ps
-    if r.1 then .compound ps :: dedupFrom r.2 rest else dedupFrom r.2 rest
+    if seen.contains ps then dedupFrom seen rest else .compound ps :: dedupFrom (ps :: seen) rest
   | .aliased a :: rest =>
-    if seen.contains a then dedupFrom seen rest else .aliased a :: dedupFrom (a :: seen) rest
+    if seen.contains [a] then dedupFrom seen rest else .aliased a :: dedupFrom ([a] :: seen) rest
   | .other :: rest => .other :: dedupFrom seen rest
 
 def dedup (items : List Item) : List Item := dedupFrom [] items
 
 /-- indices retained (what the hook reports) -/
-def keptFrom (seen : List Ident) (i : Nat) : List Item → List Nat
+def keptFrom (seen : List (List Ident)) (i : Nat) : List Item → List Nat
   | [] => []
   | .compound ps :: rest =>
-    let r := anyInsert seen ps
-    if r.1 then i :: keptFrom r.2 (i + 1) rest else keptFrom r.2 (i + 1) rest
+    if seen.contains ps then keptFrom seen (i + 1) rest else i :: keptFrom (ps :: seen) (i + 1) rest
   | .aliased a :: rest =>
-    if seen.contains a then keptFrom seen (i + 1) rest else i :: keptFrom (a :: seen) (i + 1) rest
+    if seen.contains [a] then keptFrom seen (i + 1) rest else i :: keptFrom ([a] :: seen) (i + 1) rest
   | .other :: rest => i :: keptFrom seen (i + 1) rest
 
 def kept (items : List Item) : List Nat := keptFrom [] 0 items
+
+/-- the identifier an item is remembered by -/
+def Item.key : Item → Option (List Ident)
+  | .compound ps => some ps
+  | .aliased a => some [a]
+  | .other => none
 
 /-- the name under which an item appears in the result set -/
 def Item.resultName : Item → Option Ident
